@@ -615,10 +615,15 @@ where
             }
         }
         ReadMode::Abandon => {}
-        ReadMode::Detached => {
+        ReadMode::Detached | ReadMode::DetachedLate => {
             if let Some(pl) = detached {
                 let app2 = app.clone();
+                let late = plan.read == ReadMode::DetachedLate;
                 let _ = ntex_util::spawn(async move {
+                    if late {
+                        let g = app2.gate(GateKind::PubRead, call * 1000 + 999);
+                        g.wait().await;
+                    }
                     let mut got: Vec<u8> = Vec::new();
                     loop {
                         match pl.read().await {
@@ -693,7 +698,7 @@ fn perr(e: ntex_mqtt::error::PayloadError) -> String {
 // ------------------------------------------------------------------------------- v3 handlers
 
 async fn v3_publish(app: Rc<App>, mut p: v3::Publish, route: String) -> Result<(), TestErr> {
-    let detached = (app.peek_pub_read() == ReadMode::Detached).then(|| p.take_payload());
+    let detached = matches!(app.peek_pub_read(), ReadMode::Detached | ReadMode::DetachedLate).then(|| p.take_payload());
     let pk = p.packet().clone();
     let size = p.packet_size();
     let o = publish_common(
@@ -752,7 +757,7 @@ fn packet_id_of_v3_sub(_s: &v3::control::Subscribe) -> u16 {
 // ------------------------------------------------------------------------------- v5 handlers
 
 async fn v5_publish(app: Rc<App>, mut p: v5::Publish, route: String) -> Result<v5::PublishAck, TestErr> {
-    let detached = (app.peek_pub_read() == ReadMode::Detached).then(|| p.take_payload());
+    let detached = matches!(app.peek_pub_read(), ReadMode::Detached | ReadMode::DetachedLate).then(|| p.take_payload());
     // resources with a dynamic segment: record what the router's match says about this message
     let route = if route.contains('{') { format!("{route}[id={}]", p.topic().get("id").unwrap_or("-")) } else { route };
     let pk = p.packet().clone();
